@@ -103,6 +103,33 @@ class Cal:
     def working(self, fid, t):
         return self.on_hours(fid, t) and not self.off(fid, t)
 
+    def proj_working(self, t):
+        """the project calendar: Monday to Friday 9:00 - 17:00 (UTC projects), outside every global vacation"""
+        for (a, b) in self.p.get("vacations") or []:
+            if a <= t < (b if (b is not None and b != a) else a + 86400):
+                return False
+        wd, m = local_wd_min(t, None)
+        return wd < 5 and 9 * 60 <= m < 17 * 60
+
+    def len_bound(self, ref, secs, horizon):
+        """`gaplength`: the instant at which `secs` seconds of project working time have passed since `ref` (None when the
+        project ends before that).  Project working time is kept per slot of the scheduling grid: a slot counts as working
+        time iff it begins in working time (on grids aligned with 9:00 and 17:00 that is plain Mon-Fri 9-17)."""
+        G = self.p.get("G", 3600)
+        t = ref
+        left = secs
+        while left > 0:
+            if t >= horizon:
+                return None
+            slot0 = self.p["start"] + (t - self.p["start"]) // G * G
+            step = min(slot0 + G - t, left)
+            if self.proj_working(slot0):
+                left -= step
+            else:
+                step = slot0 + G - t
+            t += step
+        return t
+
     def work_seconds(self, fid, t0, t1):
         """declared working seconds in [t0, t1) (minute granularity: .tjp times have minute precision)"""
         n = 0
